@@ -1064,11 +1064,20 @@ static void vbi_proxyd_forward_data( int dev_idx )
                                 &p_buf->line_count, &p_buf->timestamp, &timeout);
       }
 
+      if (res < 0)
+      {
+         /* XXX abort upon error (esp. EBUSY) */
+         perror("VBI read");
+      }
+
+      /* the buffer must be in the queue before the master thread can see it in
+      ** a client's p_sliced, hence a single critical section */
+      pthread_mutex_lock(&proxy.clnt_mutex);
+      pthread_mutex_lock(&p_proxy_dev->queue_mutex);
+
       if (res > 0)
       {
          assert(p_buf->line_count < p_buf->max_lines);
-         pthread_mutex_lock(&proxy.clnt_mutex);
-         pthread_mutex_lock(&p_proxy_dev->queue_mutex);
 
          for (req = proxy.p_clnts; req != NULL; req = req->p_next)
          {
@@ -1082,17 +1091,7 @@ static void vbi_proxyd_forward_data( int dev_idx )
                   req->p_sliced = p_buf;
             }
          }
-
-         pthread_mutex_unlock(&p_proxy_dev->queue_mutex);
-         pthread_mutex_unlock(&proxy.clnt_mutex);
       }
-      else if (res < 0)
-      {
-         /* XXX abort upon error (esp. EBUSY) */
-         perror("VBI read");
-      }
-
-      pthread_mutex_lock(&p_proxy_dev->queue_mutex);
 
       if (p_buf->ref_count > 0)
          vbi_proxy_queue_add_tail(&p_proxy_dev->p_sliced, p_buf);
@@ -1101,6 +1100,7 @@ static void vbi_proxyd_forward_data( int dev_idx )
 
       p_proxy_dev->p_tmp_buf = NULL;
       pthread_mutex_unlock(&p_proxy_dev->queue_mutex);
+      pthread_mutex_unlock(&proxy.clnt_mutex);
    }
    else
       dprintf(DBG_MSG, "forward_data: queue overflow\n");
@@ -2193,9 +2193,11 @@ static void vbi_proxyd_close( PROXY_CLNT * req, vbi_bool close_all )
          vbi_proxy_queue_release_sliced(req);
       }
 
-      pthread_mutex_unlock(&proxy.dev[req->dev_idx].queue_mutex);
-
+      /* inside the critical section: the acq thread must not queue
+      ** another frame for this client after its queue was released */
       req->state = REQ_STATE_CLOSED;
+
+      pthread_mutex_unlock(&proxy.dev[req->dev_idx].queue_mutex);
    }
 }
 
@@ -2920,14 +2922,24 @@ static void vbi_proxyd_handle_client_sockets( fd_set * rd, fd_set * wr )
             /* forward data from slicer out queue */
             while ((req->p_sliced != NULL) && (io_blocked == FALSE))
             {
-               dprintf(DBG_QU, "handle_sockets: fd %d: forward sliced frame with %d lines (of max %d)\n", req->io.sock_fd, req->p_sliced->line_count, req->p_sliced->max_lines);
-               if (vbi_proxyd_send_sliced(req, &io_blocked) )
-               {  /* only in success case because close releases all buffers */
-                  pthread_mutex_lock(&proxy.dev[req->dev_idx].queue_mutex);
-                  vbi_proxy_queue_release_sliced(req);
-                  pthread_mutex_unlock(&proxy.dev[req->dev_idx].queue_mutex);
+               vbi_bool io_ok = TRUE;
+
+               /* the acq thread may release the head of the queue by force
+               ** (vbi_proxy_queue_force_free): keep it off the buffer while
+               ** the message is built and the read pointer is advanced */
+               pthread_mutex_lock(&proxy.dev[req->dev_idx].queue_mutex);
+               if (req->p_sliced != NULL)
+               {
+                  dprintf(DBG_QU, "handle_sockets: fd %d: forward sliced frame with %d lines (of max %d)\n", req->io.sock_fd, req->p_sliced->line_count, req->p_sliced->max_lines);
+                  io_ok = vbi_proxyd_send_sliced(req, &io_blocked);
+                  if (io_ok)
+                  {  /* only in success case because close releases all buffers */
+                     vbi_proxy_queue_release_sliced(req);
+                  }
                }
-               else
+               pthread_mutex_unlock(&proxy.dev[req->dev_idx].queue_mutex);
+
+               if (io_ok == FALSE)
                {  /* I/O error */
                   vbi_proxyd_close(req, FALSE);
                   io_blocked = TRUE;
